@@ -17,6 +17,15 @@ def poly_json(P):
     M, bn, vi, ii = poly_lists(P)
     return {"M": M, "bnds": [list(x) for x in bn], "vars": vi, "index": ii, "shape": list(np.asarray(P).shape)}
 
+def c11_poly(M, bnds):
+    """the polyhedron of a case: narrowest storage type, and for a quarter of the cases (chosen from the data, so that a replay
+    builds the same object) the subclass a configurator hands out - same matrix, variables and row index plus default
+    priorities; reduction is inherited and has to answer the same"""
+    P = mk_poly(M, bnds, narrow=True)
+    if (len(M) + len(bnds) + sum(abs(x) for r in M for x in r)) % 4 == 0 and len(bnds) >= 1:
+        P = pnd.ge_polyhedron_config(P, default_prio_vector=np.array([-1] * len(bnds)), variables=P.variables, index=P.index)
+    return P
+
 def observe(P):
     o = {}
     try:
@@ -123,7 +132,7 @@ def oracle_system(M, bnds, o=None, points=None, rng=None):
     idx_ids = ["r%d" % i for i in range(len(M))]
     if o is None:
         try:
-            o = observe(mk_poly(M, bnds, narrow=True))
+            o = observe(c11_poly(M, bnds))
         except Exception as e:
             fail("observe", f"raised {type(e).__name__}: {e}")
             return fails, info
@@ -232,7 +241,9 @@ def run(res, tier, seed):
         stream.append(gen_system(rng))
     for M, bnds, prof in stream:
         try:
-            P = mk_poly(M, bnds, narrow=True)
+            P = c11_poly(M, bnds)
+            if isinstance(P, pnd.ge_polyhedron_config):
+                res.count("as_ge_polyhedron_config")
             o = observe(P)
         except Exception as e:
             res.violation("oracle", f"a C11 method raised {type(e).__name__}: {e} on matrix {M} bounds {bnds}",
@@ -338,7 +349,7 @@ def replay(payload):
     M, bnds = r["M"], [tuple(x) for x in r["bnds"]]
     if r.get("op") == "reduce-args":
         rv, cv = r["rows"], r["cols"]
-        R = mk_poly(M, bnds, narrow=True).reduce(None if rv is None else pnd.boolean_ndarray(np.array(rv, dtype=int)),
+        R = c11_poly(M, bnds).reduce(None if rv is None else pnd.boolean_ndarray(np.array(rv, dtype=int)),
                                     None if cv is None else np.array([np.nan if c is None else float(c) for c in cv], dtype=float))
         pj = poly_json(R)
         keep_c = [j for j in range(len(bnds)) if cv is None or cv[j] is None]
@@ -348,7 +359,7 @@ def replay(payload):
         return 0 if (pj["M"] == want and pj["vars"] == ["0"] + ["v%d" % j for j in keep_c] and pj["index"] == ["r%d" % i for i in keep_r]) else 1
     fails, info = oracle_system(M, bnds, points=[r["point"]] if r.get("point") and len(r["point"]) == len(bnds) else None)
     try:
-        o = observe(mk_poly(M, bnds, narrow=True))
+        o = observe(c11_poly(M, bnds))
         print("matrix", M, "bounds", bnds, "reducable_rows", o["rr"], "reducable_columns_approx", o["rca"], "reducable_rows_and_columns", o["loop"],
               "reduced", o["reduced"])
     except Exception as e:
